@@ -110,7 +110,7 @@ func main() {
 		pws = []string{"", "x", "xy", "X", "x\x00"}
 		sets = []uint{1, 2, 3}
 	} else {
-		pws = []string{"x", "xy", "x\x00"}
+		pws = []string{"", "x", "xy", "x\x00"}
 		sets = []uint{1, 2}
 	}
 	ev.Rule = fmt.Sprintf("BFS closure of model states (per user: absent | password in %q x admin x parameter set in %v; users %v); "+
